@@ -399,3 +399,245 @@ Proof.
   intros. unfold threshold_from_tax_base. rewrite bracket_of_base_index by assumption.
   cbn [rmap map]. rewrite py_nth_nat, nth_thresholds_app. reflexivity.
 Qed.
+
+(* ------------------------------------------------------------------------- *)
+(** * LinearAverageRateTaxScale.calc                                           *)
+(* ------------------------------------------------------------------------- *)
+
+(** rate interpolated linearly between (t0, r0) and (t1, r1) at b; constant r0 in the
+    open-ended last bracket *)
+Definition interpolated_rate (t0 r0 : Q) (t1 : ext) (r1 : Q) (b : Q) : Q :=
+  match t1 with
+  | Fin c => r0 + (b - t0) * ((r1 - r0) / (c - t0))
+  | Inf => r0
+  end.
+
+Definition esorted (s : escale) : Prop :=
+  StronglySorted (fun a b => ext_ltb a b = true) (ethresholds s).
+
+(** indicator of b in [lo, hi) *)
+Definition ind (b : Q) (lo hi : ext) : Q := b2q (ext_leb_q lo b && q_ltb_ext b hi).
+
+(** one value per pair of consecutive brackets *)
+Fixpoint segvals {A} (h : ext * Q -> ext * Q -> A) (s : escale) : list A :=
+  match s with
+  | [] => []
+  | x0 :: rest => match rest with
+                  | [] => []
+                  | x1 :: _ => h x0 x1 :: segvals h rest
+                  end
+  end.
+
+Fixpoint seg_sum (g : ext * Q -> ext * Q -> Q) (s : escale) : Q :=
+  match s with
+  | [] => 0
+  | x0 :: rest => match rest with
+                  | [] => 0
+                  | x1 :: _ => g x0 x1 + seg_sum g rest
+                  end
+  end.
+
+Lemma segvals_length : forall {A} (h : ext * Q -> ext * Q -> A) s, length (segvals h s) = (length s - 1)%nat.
+Proof.
+  intros A h s. induction s as [|x0 [|x1 rest] IH]; try reflexivity.
+  cbn [segvals length] in *. rewrite IH. lia.
+Qed.
+
+Lemma combine_lo_hi : forall s : escale,
+  combine (removelast (ethresholds s)) (tl (ethresholds s)) = segvals (fun x y => (fst x, fst y)) s.
+Proof.
+  induction s as [|x0 [|x1 rest] IH]; try reflexivity.
+  change (ethresholds (x0 :: x1 :: rest)) with (fst x0 :: ethresholds (x1 :: rest)).
+  change (ethresholds (x1 :: rest)) with (fst x1 :: ethresholds rest) at 1 2.
+  cbn [removelast tl combine segvals]. f_equal.
+  change (fst x1 :: ethresholds rest) with (ethresholds (x1 :: rest)). exact IH.
+Qed.
+
+Lemma combine_rates : forall s : escale,
+  combine (removelast (erates s)) (tl (erates s)) = segvals (fun x y => (snd x, snd y)) s.
+Proof.
+  induction s as [|x0 [|x1 rest] IH]; try reflexivity.
+  change (erates (x0 :: x1 :: rest)) with (snd x0 :: erates (x1 :: rest)).
+  change (erates (x1 :: rest)) with (snd x1 :: erates rest) at 1 2.
+  cbn [removelast tl combine segvals]. f_equal.
+  change (snd x1 :: erates rest) with (erates (x1 :: rest)). exact IH.
+Qed.
+
+Lemma removelast_erates : forall s : escale, removelast (erates s) = segvals (fun x _ => snd x) s.
+Proof.
+  induction s as [|x0 [|x1 rest] IH]; try reflexivity.
+  change (erates (x0 :: x1 :: rest)) with (snd x0 :: erates (x1 :: rest)).
+  change (erates (x1 :: rest)) with (snd x1 :: erates rest) at 1.
+  cbn [removelast segvals]. f_equal.
+  change (snd x1 :: erates rest) with (erates (x1 :: rest)). exact IH.
+Qed.
+
+Lemma removelast_ethresholds : forall s : escale,
+  map fin_or0 (removelast (ethresholds s)) = segvals (fun x _ => fin_or0 (fst x)) s.
+Proof.
+  induction s as [|x0 [|x1 rest] IH]; try reflexivity.
+  change (ethresholds (x0 :: x1 :: rest)) with (fst x0 :: ethresholds (x1 :: rest)).
+  change (ethresholds (x1 :: rest)) with (fst x1 :: ethresholds rest) at 1.
+  cbn [removelast segvals map]. f_equal.
+  change (fst x1 :: ethresholds rest) with (ethresholds (x1 :: rest)). exact IH.
+Qed.
+
+Lemma map_segvals : forall {A B} (f : A -> B) (h : ext * Q -> ext * Q -> A) s,
+  map f (segvals h s) = segvals (fun x y => f (h x y)) s.
+Proof.
+  intros A B f h s. induction s as [|x0 [|x1 rest] IH]; try reflexivity.
+  cbn [segvals map] in *. rewrite IH. reflexivity.
+Qed.
+
+Lemma map2_segvals : forall {A B C} (f : A -> B -> C) (h : ext * Q -> ext * Q -> A) (k : ext * Q -> ext * Q -> B) s,
+  map2 f (segvals h s) (segvals k s) = segvals (fun x y => f (h x y) (k x y)) s.
+Proof.
+  intros A B C f h k s. induction s as [|x0 [|x1 rest] IH]; try reflexivity.
+  cbn [segvals map2] in *. rewrite IH. reflexivity.
+Qed.
+
+Lemma dot_segvals : forall h k s, dot (segvals h s) (segvals k s) = seg_sum (fun x y => h x y * k x y) s.
+Proof.
+  intros h k s. induction s as [|x0 [|x1 rest] IH]; try reflexivity.
+  cbn [segvals seg_sum] in *. rewrite dot_cons, IH. reflexivity.
+Qed.
+
+(** the value computed for one base, as three sums over consecutive brackets *)
+Definition la1 (s : escale) (b : Q) : Q :=
+  let w x y := ind b (fst x) (fst y) in
+  b * (seg_sum (fun x y => w x y * snd x) s
+       + (b - seg_sum (fun x y => w x y * fin_or0 (fst x)) s)
+         * seg_sum (fun x y => w x y * slope (fst x) (fst y) (snd x) (snd y)) s).
+
+Lemma calc_linear_average_map : forall s bases,
+  (2 <= length s)%nat -> calc_linear_average s bases = Ok (map (la1 s) bases).
+Proof.
+  intros s bases Hlen. destruct s as [|[t0 r0] [|x1 rest]]; cbn [length] in Hlen; try lia.
+  unfold calc_linear_average. set (s := (t0, r0) :: x1 :: rest).
+  unfold tile_T, tile_rows. rewrite map2_map_map.
+  rewrite combine_lo_hi, combine_rates, removelast_erates, removelast_ethresholds, map2_segvals.
+  rewrite (map_ext _ (fun b => segvals (fun x y => ind b (fst x) (fst y)) s)).
+  2:{ intro b. rewrite map2_repeat_l by (rewrite segvals_length; lia). rewrite map_segvals. reflexivity. }
+  rewrite !map_map, !combine_map_map, map2_map_r. f_equal. apply map_ext. intro b.
+  cbn [fst snd]. rewrite !dot_segvals. reflexivity.
+Qed.
+
+Theorem calc_linear_average_pointwise : forall s bases,
+  s <> [] ->
+  exists l, calc_linear_average s bases = Ok l
+            /\ Forall2 (fun b v => calc_linear_average s [b] = Ok [v]) bases l.
+Proof.
+  intros s bases Hs. destruct s as [|[t0 r0] [|x1 rest]]; [congruence| |].
+  - exists (map (fun b => b * r0) bases). split; [reflexivity|].
+    induction bases as [|b bs IH]; constructor; [reflexivity|exact IH].
+  - exists (map (la1 ((t0, r0) :: x1 :: rest)) bases).
+    split; [apply calc_linear_average_map; cbn [length]; lia|].
+    induction bases as [|b bs IH]; constructor; [|exact IH].
+    rewrite calc_linear_average_map by (cbn [length]; lia). reflexivity.
+Qed.
+
+(** ** exactly one indicator is 1 for a base inside the thresholds' range *)
+
+Lemma seg_sum_above : forall b h s,
+  Forall (fun x => ext_leb_q (fst x) b = false) s ->
+  seg_sum (fun x y => ind b (fst x) (fst y) * h x y) s == 0.
+Proof.
+  intros b h s H. induction H as [|x0 rest Hx Hr IH]; [reflexivity|].
+  destruct rest as [|x1 rest]; [reflexivity|].
+  cbn [seg_sum] in *. rewrite IH. unfold ind. rewrite Hx. cbn [andb b2q]. ring.
+Qed.
+
+Lemma seg_sum_cons2 : forall g x y l, seg_sum g (x :: y :: l) = g x y + seg_sum g (y :: l).
+Proof. reflexivity. Qed.
+
+Lemma seg_sum_pre : forall b h pre x0 tail,
+  Forall (fun x => q_ltb_ext b (fst x) = false) (pre ++ [x0]) ->
+  seg_sum (fun x y => ind b (fst x) (fst y) * h x y) (pre ++ x0 :: tail)
+  == seg_sum (fun x y => ind b (fst x) (fst y) * h x y) (x0 :: tail).
+Proof.
+  intros b h pre x0 tail. induction pre as [|p pre IH]; intro H; [reflexivity|].
+  cbn [app] in H. inversion H as [|? ? Hp H']; subst. specialize (IH H').
+  assert (Hq : exists q l, pre ++ x0 :: tail = q :: l /\ q_ltb_ext b (fst q) = false).
+  { destruct pre as [|q pre]; cbn [app] in *; inversion H'; subst; eauto. }
+  destruct Hq as [q [l [El Hq]]]. cbn [app]. rewrite El in *.
+  rewrite seg_sum_cons2, IH. unfold ind at 1. rewrite Hq, andb_false_r. cbn [b2q]. ring.
+Qed.
+
+Lemma esorted_app_inv : forall pre x0 tail,
+  esorted (pre ++ x0 :: tail) ->
+  Forall (fun x => ext_ltb (fst x) (fst x0) = true) pre
+  /\ Forall (fun x => ext_ltb (fst x0) (fst x) = true) tail
+  /\ esorted (x0 :: tail).
+Proof.
+  unfold esorted, ethresholds. induction pre as [|p pre IH]; intros x0 tail H.
+  - cbn [app map] in *. split; [constructor|]. split; [|exact H].
+    inversion H as [|? ? _ Hf]; subst. rewrite Forall_map in Hf. exact Hf.
+  - cbn [app map] in H. inversion H as [|? ? Hs Hf]; subst.
+    destruct (IH _ _ Hs) as [H1 [H2 H3]]. split; [|tauto].
+    constructor; [|exact H1]. rewrite Forall_map, Forall_forall in Hf.
+    apply (Hf x0). apply in_or_app. right. left. reflexivity.
+Qed.
+
+Lemma seg_sum_in_bracket : forall b h pre t0 r0 x1 post,
+  esorted (pre ++ (Fin t0, r0) :: x1 :: post) ->
+  in_bracket false t0 (fst x1) b ->
+  seg_sum (fun x y => ind b (fst x) (fst y) * h x y) (pre ++ (Fin t0, r0) :: x1 :: post)
+  == h (Fin t0, r0) x1.
+Proof.
+  intros b h pre t0 r0 x1 post Hs [Hlo Hhi].
+  destruct (esorted_app_inv _ _ _ Hs) as [Hpre [_ Hs0]].
+  destruct (esorted_app_inv [(Fin t0, r0)] x1 post Hs0) as [_ [Hpost _]].
+  assert (Hb1 : q_ltb_ext b (fst x1) = true).
+  { destruct (fst x1) as [c|]; [apply Qlt_bool_iff; exact Hhi|reflexivity]. }
+  rewrite seg_sum_pre.
+  2:{ apply Forall_app. split.
+      - eapply Forall_impl; [|exact Hpre]. intros [[c|] q] Hx; cbn [fst ext_ltb q_ltb_ext] in *; [|discriminate].
+        qcases. apply Qlt_bool_false_iff. lra.
+      - constructor; [|constructor]. cbn [fst q_ltb_ext]. apply Qlt_bool_false_iff. exact Hlo. }
+  rewrite seg_sum_cons2, seg_sum_above.
+  2:{ assert (H1 : ext_leb_q (fst x1) b = false).
+      { destruct (fst x1) as [c|]; cbn [ext_leb_q q_ltb_ext] in *; [|reflexivity].
+        qcases. apply Qle_bool_false_iff. exact Hb1. }
+      constructor; [exact H1|]. eapply Forall_impl; [|exact Hpost].
+      intros [[c|] q] Hx; cbn [fst ext_leb_q] in *; [|reflexivity].
+      destruct (fst x1) as [c1|]; cbn [ext_ltb q_ltb_ext] in *; [|discriminate].
+      qcases. apply Qle_bool_false_iff. lra. }
+  unfold ind. cbn [fst ext_leb_q]. rewrite Hb1.
+  assert (E : Qle_bool t0 b = true) by (apply Qle_bool_iff; exact Hlo). rewrite E. cbn [andb b2q]. ring.
+Qed.
+
+(** For a base in [t0, t1) the result is base * rate interpolated between (t0, r0) and
+    (t1, r1);  t1 may be +inf (last bracket of an average scale): constant rate r0. *)
+Theorem calc_linear_average_def : forall pre t0 r0 t1 r1 post b,
+  esorted (pre ++ (Fin t0, r0) :: (t1, r1) :: post) ->
+  in_bracket false t0 t1 b ->
+  exists v, calc_linear_average (pre ++ (Fin t0, r0) :: (t1, r1) :: post) [b] = Ok [v]
+            /\ v == b * interpolated_rate t0 r0 t1 r1 b.
+Proof.
+  intros pre t0 r0 t1 r1 post b Hs Hb.
+  exists (la1 (pre ++ (Fin t0, r0) :: (t1, r1) :: post) b). split.
+  - apply (calc_linear_average_map _ [b]). rewrite app_length. cbn [length]. lia.
+  - unfold la1. rewrite !(seg_sum_in_bracket b _ pre t0 r0 (t1, r1) post Hs Hb).
+    cbn [fst snd fin_or0]. unfold interpolated_rate, slope. destruct t1 as [c|]; ring.
+Qed.
+
+(** the same for a scale with finite thresholds (what C08 runs: [to_escale (build calls)]) *)
+Lemma esorted_to_escale : forall s, sorted s -> esorted (to_escale s).
+Proof.
+  intros s. unfold esorted, ethresholds, to_escale. rewrite map_map. cbn [fst].
+  induction s as [|[t r] s IH]; intro H; [constructor|].
+  cbn [map fst]. constructor; [apply IH; eapply sorted_tail; exact H|].
+  rewrite Forall_map. eapply Forall_impl; [|exact (sorted_above _ _ _ H)].
+  intros u Hu. cbn [ext_ltb]. apply Qlt_bool_iff. exact Hu.
+Qed.
+
+Theorem calc_linear_average_def_fin : forall pre t0 r0 t1 r1 post b,
+  sorted (pre ++ (t0, r0) :: (t1, r1) :: post) ->
+  t0 <= b < t1 ->
+  exists v, calc_linear_average (to_escale (pre ++ (t0, r0) :: (t1, r1) :: post)) [b] = Ok [v]
+            /\ v == b * (r0 + (b - t0) * ((r1 - r0) / (t1 - t0))).
+Proof.
+  intros pre t0 r0 t1 r1 post b Hs Hb. apply esorted_to_escale in Hs.
+  unfold to_escale in *. rewrite map_app in *. cbn [map fst snd] in *.
+  apply (calc_linear_average_def _ t0 r0 (Fin t1) r1 _ b Hs). exact Hb.
+Qed.
